@@ -58,6 +58,32 @@ def run(chk):
                 pool.append(("clique:%d" % i, doc, demes.Graph.fromdict(doc)))
         except Exception:
             chk.count("family_rejected")
+    for i in range(60 if chk.tier == "quick" else 1200):
+        doc = gen.size_return_family(rng)
+        try:
+            pool.append(("size-return:%d" % i, doc, demes.Graph.fromdict(doc)))
+        except Exception:
+            chk.count("family_rejected")
+    # graphs derived by the library's own operations from a graph that was simplified before: the simplified
+    # form must describe the graph it is asked of
+    derived = []
+    for label, doc, g in pool[:]:
+        try:
+            if g.generation_time not in (None, 1) and rng.random() < 0.5:
+                g.asdict_simplified()
+                str(g)
+                gi = g.in_generations()
+                if graphs.still_valid(gi):
+                    derived.append((label + "|in_generations", None, gi))
+                else:
+                    chk.count("derived_invalid_in_generations_F12")
+            elif len(g.demes) >= 2 and rng.random() < 0.15:
+                g.asdict_simplified()
+                a, c = g.demes[0].name, g.demes[-1].name
+                derived.append((label + "|rename-swap", None, g.rename_demes({a: c, c: a})))
+        except Exception as e:
+            chk.count("derived_failed_" + type(e).__name__)
+    pool = pool + derived
     for label, doc, g in pool:
         payload = gen.graph_payload(g)
         full = g.asdict()
